@@ -1428,8 +1428,71 @@ func genDrawLockHistories(g *h.Gen) {
 	}
 }
 
+// genDrawRevisit: a cell is painted, then stored again with exactly ONE component minimally changed — one combining rune
+// replaced (same count), the list reordered, shortened or extended, one style field (MutateStyle), the primary rune, or
+// nothing at all — and shown again, then an idle Show.  Redraw shortcuts that compare or alias the remembered content
+// wrongly only fail on such near-identical rewrites; C01 judges the display, C13 the writes of the idle / identical case.
+func genDrawRevisit(g *h.Gen) {
+	r := g.R
+	ents := []string{"xterm-256color", "xterm-kitty", "linux", "vt220", "screen-256color", "sun-color"}
+	n := g.N(160, 4000)
+	for i := 0; i < n; i++ {
+		name := ents[i%len(ents)]
+		if terminfo.VerifEntries()[name] == nil {
+			continue
+		}
+		w, hh := 6, 2
+		x, y := r.Range(0, w-1), r.Range(0, hh-1)
+		main := h.Pick(r, []int{'e', 'a', 0x4e16, 0xe9, 'Z'})
+		comb := [][]int{nil, {0x301}, {0x301, 0x308}, {0x308, 0x20dd, 0x301}}[r.Intn(4)]
+		st := drawStyle(r)
+		if r.Chance(30) {
+			st.Url, st.UrlId = "http://a", "id=1"
+		}
+		cols := map[uint64]bool{}
+		var ops []string
+		set := func(m int, c []int, f StyleF) {
+			cols[f.Fg], cols[f.Bg], cols[f.UlColor] = true, true, true
+			ops = append(ops, fmt.Sprintf("S %d %d %d %s %s", x, y, m, h.ShowIntList(c), f))
+		}
+		set(main, comb, st)
+		ops = append(ops, "W")
+		for k := r.Range(1, 3); k > 0; k-- {
+			c2 := append([]int{}, comb...)
+			m2, st2 := main, st
+			switch r.Intn(8) {
+			case 0:
+				if len(c2) > 0 {
+					c2[r.Intn(len(c2))] = h.Pick(r, []int{0x300, 0x302, 0x303, 0x308, 0x301})
+				}
+			case 1:
+				if len(c2) > 1 {
+					c2[0], c2[len(c2)-1] = c2[len(c2)-1], c2[0]
+				}
+			case 2:
+				if len(c2) > 0 {
+					c2 = c2[:len(c2)-1]
+				}
+			case 3:
+				c2 = append(c2, 0x302)
+			case 4, 5:
+				st2 = MutateStyle(r, st)
+			case 6:
+				m2 = h.Pick(r, []int{'e', 'a', 0x4e16, 0xe9, 'Z', 'q'})
+			}
+			set(m2, c2, st2)
+			ops = append(ops, "W")
+			main, comb, st = m2, c2, st2
+		}
+		ops = append(ops, "W")
+		ops = append(ops, fitOps(name, cols)...)
+		g.Emit("draw %s %d %d %d %s", withVariant(name), i%2, w, hh, strings.Join(ops, "; "))
+	}
+}
+
 func genDraw(g *h.Gen) {
 	genDrawMatrix(g)
+	genDrawRevisit(g)
 	genDrawLockedWide(g)
 	genDrawWideCover(g)
 	genDrawLockHistories(g)
